@@ -149,12 +149,15 @@ func (c *Chunk) Bytes() ([]byte, error) {
 	}
 	// NOTE(dij): This looks like an awesome optimization, we reslice instead of
 	//            allocating and writing a new slice.
+	// The returned slice is a window into this Chunk's buffer: cap it at its own
+	// length so that appending to it can never write over the bytes behind it.
 	if n := c.Size(); n < c.rpos+int(l) {
-		o := c.buf[c.rpos:]
+		o := c.buf[c.rpos:n:n]
 		c.rpos = n
 		return o, io.EOF
 	}
-	o := c.buf[c.rpos : uint64(c.rpos)+l]
+	e := uint64(c.rpos) + l
+	o := c.buf[c.rpos:e:e]
 	c.rpos += int(l)
 	return o, nil
 }
